@@ -622,3 +622,38 @@ def f1_loop_dtype_carried(ctx: Ctx) -> None:
                 else:
                     ctx.ok(R, f, ins[0], f'`{x}` is only widened inside the loop (initial value `{inits[0] if inits else "?"}`) and then types `{what}`', key=key)
     ctx.require(n >= 3, 'loop-carried dtypes')
+
+
+def f1_full_for_fill(ctx: Ctx) -> None:
+    R = 'F1.full-for-fill-resolves'
+    ctx.rule(R, 'F1.merge-store-dtype trusts util.full_for_fill to type its array so that both the existing data and the fill value fit; that trust is checked here: on '
+             'every path (symbolic store) the dtype of each allocation in full_for_fill is the dtype of the fill element itself (no target dtype given) or a resolver '
+             'call over the target dtype and the dtype of the fill element; keeping the target dtype on some path casts the fill value into it (0.1 into float32, '
+             '1e300 into inf)', floor=2)
+    from sfa.symenv import SymEnv
+    prog = ctx.prog
+    f = prog.func('util.full_for_fill')
+    allocs = [c for c in walk_local(f.node) if isinstance(c, ast.Call) and call_name(c) in ('np.full', 'np.empty', 'np.zeros', 'np.ones') and (kwarg(c, 'dtype') is not None)]
+    ctx.require(len(allocs) >= 2, 'allocations of full_for_fill')
+    ids = {id(c) for c in allocs}
+    se = SymEnv(f.node, watch=lambda x: id(x) in ids, max_worlds=256, keep_fact=lambda t: True).run()
+    elem_calls = {norm(a.value) for a in walk_local(f.node) if isinstance(a, ast.Assign) and isinstance(a.value, ast.Call) and call_name(a.value) == 'dtype_from_element'}
+    tgt = f.params[0]
+    for i_c, c in enumerate(allocs):
+        key = f'full_for_fill:{call_name(c)}#{i_c}'
+        bad = None
+        for w in sorted(se.at(c)):
+            t = se.text(kwarg(c, 'dtype'), w)
+            facts = se.facts(w)
+            target_given = not (facts.get(f'{tgt} is None') is True or facts.get(f'{tgt} is not None') is False)
+            resolved = any(r + '(' in t for r in RESOLVERS) and tgt in t and any(e in t for e in elem_calls)
+            from_element = t in elem_calls
+            if resolved or (from_element and not target_given) or t in SAFE_DTYPES:
+                continue
+            bad = t
+            break
+        if bad is None:
+            ctx.ok(R, f, c, 'on every path the dtype is resolved from the target dtype and the fill element (or is the element\'s own dtype when no target is given)', key=key)
+        else:
+            ctx.bad(R, f, c, f'on some path `{norm(c)[:50]}` is typed `{bad[:60]}`, which is not resolved against the dtype of the fill element: the fill value is cast into the '
+                    'target dtype', key=key)
